@@ -1,8 +1,57 @@
 """claims.py — what MANIFEST.json says about each claimed property (kept next to the generator)."""
-NOTE_COMMON = ('Trusted: Coq 8.16.1 kernel (vm_compute, no native_compute); no axioms (Print Assumptions: closed); '
-               'the hand-written model is tied to /repo only by the correspondence check (generator-bounded); '
-               'extraction with ExtrOcamlBasic only; the Go runner, OCaml driver and Python harness.')
+NOTE_COMMON = ('Trusted: Coq 8.16.1 kernel (vm_compute used, no native_compute); no axioms (Print Assumptions: closed under '
+               'the global context); the hand-written model (coq/Eval.v, Actions.v, Text.v, Slice.v) is tied to /repo only by '
+               'the correspondence check (generator-bounded differential testing of the OCaml-extracted model against the '
+               'library built from /repo with -tags verif); coq/Grammar.v is regenerated from /repo/jsonpath.peg by '
+               'tools/peg2coq.py on every run; extraction with ExtrOcamlBasic only; the Go runner, OCaml driver and Python harness.')
+EVAL_HYP = (' Theorem hypotheses: the tree is well-formed (wf_node, decidable; the driver evaluates it on every tree the parser '
+            'model builds and a failure is reported), arrays of the document and of user-function results are shorter than 2^62, '
+            'user functions are pure total functions with an error result.')
+T_EVAL = 'Coq proof (mutual induction over the syntax tree of the evaluator model) + differential correspondence check'
 CLAIMS = {
+    'C03': {
+        'text': 'C03_eval_total / C03_invariant (coq/Prop_C03.v, EvalInv1-4.v): on the evaluator model every call on a well-formed tree '
+                'returns a non-empty result list or a runtime error — no modelled Go panic site (index out of range, failed type '
+                'assertion, interface comparison of uncomparable types, slice buffer overrun) is reachable and an empty success is '
+                'impossible — for every document, unbounded depth and size. Correspondence: outcome classes of generated paths x '
+                'documents (both decodings, scalar/empty roots, int64-limit slices) against the model, workers isolate crashes; a '
+                'FunctionFailed error must be preceded by a failing user call.',
+        'note': NOTE_COMMON + EVAL_HYP, 'technique': T_EVAL},
+    'C04': {
+        'text': 'C04_no_shared_write (coq/Prop_C04.v): a call writes neither package-level verdict list and leaves the ghost write '
+                'log empty, success or failure, plain or accessor mode: all in-place blanking lands in lists the call owns. Documents '
+                'are immutable values in the model; that the Go code hands the caller\'s array to no writer is tied by rendering the '
+                'document before and after every call of filter-heavy generated paths (direct oracle, needs no model).',
+        'note': NOTE_COMMON + EVAL_HYP, 'technique': T_EVAL + ' + document snapshot oracle'},
+    'C05': {
+        'text': 'C05_history_independent_partial / C05_state_restored (coq/Prop_C05.v): any history of calls of one parsed function '
+                'returns call by call what a call from the initial state returns (the state after a call is the initial state again). '
+                'Partial: identity/aliasing of returned Go slices with pooled buffers is not modelled; it is observed by the harness '
+                '(results re-read after later calls and pool churn; each call compared with a fresh Retrieve and with the model).',
+        'note': NOTE_COMMON + EVAL_HYP, 'technique': T_EVAL + ' + history replay against fresh Retrieve'},
+    'C06': {
+        'text': 'PARTIAL. Proved: C06_eval_read_only_partial (a call writes no shared location of the model) and '
+                'C06_read_only_threads_state/outputs (threads of atomic steps that never write the shared state commute under every '
+                'schedule). Not modelled: goroutine scheduling, sync.Mutex, sync.Pool, the Go memory model, that Go evaluation is such '
+                'a step sequence. Those are exercised dynamically: scenarios of 2..16 goroutines sharing parsed functions and documents '
+                'and calling Parse concurrently, built with -race (halt_on_error), results compared with sequential ones.',
+        'note': NOTE_COMMON + EVAL_HYP + ' The race detector only sees interleavings that occur.',
+        'technique': 'Coq proof of the modelled logic + race-detector scenario testing (labelled testing)'},
+    'C09': {
+        'text': 'C09_and / C09_or / C09_not (coq/Prop_C09.v): on the model of syntax_query_logical_*.go the verdict list of A&&B, A||B, '
+                '!A denotes intersection, union, complement of the operands\' selections for EVERY member count (the length-1 '
+                'whole-match ambiguity included), well-formedness of lists is preserved (C09_wf_*); mirrored operators build the same '
+                'query when operand ranks differ (C09_mirror_*); <= / >= are < / > or == on validated numbers. Correspondence + direct '
+                'oracle: families of related filters on containers of distinct members must satisfy the set identities on the real library.',
+        'note': NOTE_COMMON + ' The theorems assume good states and well-formed operand lists, which C03_invariant establishes for '
+                'well-formed trees. Mirror duality for operands of equal rank is covered by the correspondence/oracle only.',
+        'technique': 'Coq proof (list-level algebra bridged to the compute function) + relational oracle + correspondence'},
+    'C10': {
+        'text': 'PARTIAL (theorems named _partial): element-level facts of validators and comparators — only operands of the literal\'s '
+                'JSON type survive validation, json.Number is replaced by its float64 value before any comparison, ordering comparators '
+                'never reach their unchecked assertions. The lifting to whole selections under both decodings is decided by the '
+                'correspondence check and direct oracles (selections under float64 vs json.Number decoding; type of every selected operand).',
+        'note': NOTE_COMMON, 'technique': 'Coq lemmas on comparator model + two-decoding differential oracle + correspondence'},
     'C11': {
         'text': 'Theorems C11_slice_python / C11_index_python / C11_total_in_range (coq/Prop_C11.v): the model of the three '
                 'subscript files, with explicit 64-bit wrap-around and the result-buffer bound as a panic outcome, selects '
@@ -10,7 +59,20 @@ CLAIMS = {
                 'panics and stays in range. The model is tied to /repo by running it and the library on the small scope '
                 '(exhaustive in the thorough tier) and on the int64 boundary magnitudes, also against Python\'s own slicing.',
         'note': NOTE_COMMON + ' Go int is assumed to be 64 bit; array lengths below 2^62.',
-        'technique': 'Coq proof (induction on loop fuel, lia/nia) over a hand model + differential correspondence check',
-    },
+        'technique': 'Coq proof (induction on loop fuel, lia/nia) over a hand model + differential correspondence check'},
+    'C13': {
+        'text': 'C13_locations (every accessor with a location carries a location of the document holding exactly the returned value, for '
+                'all paths and documents), C13_get_after_set and C13_set_frame (lens laws: Set writes that location and nothing '
+                'disjoint from it). Tie: for every accessor of generated paths a sentinel is Set on a fresh copy, the document is '
+                'searched/diffed and the location compared with the model\'s; Set=nil exactly for root and function outputs.',
+        'note': NOTE_COMMON + EVAL_HYP + ' Documents are trees (no shared sub-map). Members of a function output are outside the property.',
+        'technique': T_EVAL + ' + lens laws + set-and-diff oracle'},
+    'C20': {
+        'text': 'C20_no_panic (no panic site reachable for ANY document, foreign Go values included: interface equality is partial in the '
+                'model), C20_navigation_type_error (steps on a foreign value fail with its Go type), C20_literal_comparisons_no_match. '
+                'Correspondence: documents with leaves of 26 non-JSON Go types (uncomparable ones included) against the model.',
+        'note': NOTE_COMMON + EVAL_HYP + ' reflect.DeepEqual identity shortcut (same map object holding a func/NaN) is not modelled; such '
+                'cases are excluded from path-vs-path comparisons by the generator (DESIGN Appendix B).',
+        'technique': T_EVAL},
 }
 NOT_CLAIMED = {}
